@@ -50,6 +50,9 @@ func genForest(r *prng.R, n int) []*genQuota {
 			q.pct = prng.Pick(r, []int{1, 10, 33, 50, 60, 100})
 			q.max, q.win, q.gh, q.cc = p.max*int64(q.pct)/100, p.win, p.gh, p.cc
 		}
+		if q.pct < 0 && r.Chance(20) { // optional spillover block (inert in this code base)
+			q.sp = int64(r.Range(1, 10))
+		}
 		qs = append(qs, q)
 	}
 	return qs
@@ -65,10 +68,14 @@ func quotaLine(q quotaCfg) string {
 	if q.pct >= 0 {
 		return fmt.Sprintf("quota id=%d parent=%s pct=%d", q.id, opt(q.parent), q.pct)
 	}
-	if q.cc >= 0 {
-		return fmt.Sprintf("quota id=%d parent=%s max=%d win=%d gh=%s cc=%d", q.id, opt(q.parent), q.max, q.win, opt(q.gh), q.cc)
+	sp := ""
+	if q.sp > 0 {
+		sp = fmt.Sprintf(" sp=%d", q.sp)
 	}
-	return fmt.Sprintf("quota id=%d parent=%s max=%d win=%d gh=%s", q.id, opt(q.parent), q.max, q.win, opt(q.gh))
+	if q.cc >= 0 {
+		return fmt.Sprintf("quota id=%d parent=%s max=%d win=%d gh=%s cc=%d%s", q.id, opt(q.parent), q.max, q.win, opt(q.gh), q.cc, sp)
+	}
+	return fmt.Sprintf("quota id=%d parent=%s max=%d win=%d gh=%s%s", q.id, opt(q.parent), q.max, q.win, opt(q.gh), sp)
 }
 
 func chainOf(qs []*genQuota, q int) []*genQuota {
@@ -152,9 +159,42 @@ func genCosts(r *prng.R, chain []*genQuota) string {
 	return " costs=" + strings.Join(parts, ",")
 }
 
+// genDeepChain: a hierarchy of depth 3-4 (org > team > [unit >] user) whose upper ancestor has a small limit
+// and a short window (fills and re-opens) while the lower windows are long and stay open.
+func genDeepChain(r *prng.R) []*genQuota {
+	depth := r.Range(3, 4)
+	var qs []*genQuota
+	for i := 0; i < depth; i++ {
+		q := &genQuota{quotaCfg: quotaCfg{id: i, parent: i - 1, gh: -1, cc: -1, pct: -1}, depth: i + 1, start: -1}
+		switch {
+		case i == 0:
+			q.max, q.win = prng.Pick(r, []int64{1, 1, 2}), prng.Pick(r, []int64{1 * sec, 1 * sec, 2 * sec})
+		case i == depth-1:
+			q.max, q.win = prng.Pick(r, []int64{2, 3, 5}), prng.Pick(r, []int64{60 * sec, 120 * sec, 3600 * sec})
+		default:
+			q.max, q.win = prng.Pick(r, []int64{3, 20, 100}), prng.Pick(r, []int64{60 * sec, 3600 * sec})
+		}
+		if i == depth-1 && r.Chance(30) {
+			q.gh = 0
+		}
+		qs = append(qs, q)
+	}
+	return qs
+}
+
 func genCase(r *prng.R, id string, level int, big bool) proto.Case {
+	return genCaseX(r, id, level, big, false)
+}
+
+func genCaseX(r *prng.R, id string, level int, big bool, deep bool) proto.Case {
 	nq := r.Range(1, 4)
-	qs := genForest(r, nq)
+	var qs []*genQuota
+	if deep {
+		qs = genDeepChain(r)
+		nq = len(qs)
+	} else {
+		qs = genForest(r, nq)
+	}
 	var ops []string
 	for _, q := range qs {
 		ops = append(ops, quotaLine(q.quotaCfg))
@@ -169,6 +209,7 @@ func genCase(r *prng.R, id string, level int, big bool) proto.Case {
 	default:
 		t0 += 500_000_000
 	}
+	startIdx := len(ops)
 	ops = append(ops, fmt.Sprintf("start level=%d t=%d", level, t0))
 	mode := r.Intn(100) // <35 sequential limiter calls, <80 interleaved regular, else irregular
 	if level == 2 {
@@ -182,6 +223,9 @@ func genCase(r *prng.R, id string, level int, big bool) proto.Case {
 	targets := []int{r.Intn(nq)}
 	if r.Chance(50) {
 		targets = append(targets, r.Intn(nq))
+	}
+	if deep {
+		targets = []int{nq - 1} // the deepest quota is the one the requests name
 	}
 	hdrPool := []string{prng.Pick(r, hdrChoices)}
 	if r.Chance(50) {
@@ -220,7 +264,11 @@ func genCase(r *prng.R, id string, level int, big bool) proto.Case {
 		k := r.Intn(min(window, len(pend)))
 		p := pend[k]
 		ch := chainOf(qs, p.q)
-		now = nextTime(r, now, ch)
+		if deep && r.Chance(85) {
+			now = nextTime(r, now, ch[len(ch)-1:]) // follow the short window of the top ancestor
+		} else {
+			now = nextTime(r, now, ch)
+		}
 		kind := p.prog[0]
 		p.prog = p.prog[1:]
 		if kind == "inc" || kind == "req" {
@@ -238,6 +286,33 @@ func genCase(r *prng.R, id string, level int, big bool) proto.Case {
 			q := prng.Pick(r, ch)
 			ops = append(ops, fmt.Sprintf("counters q=%d t=%d groups=0,1,2", q.id, now))
 		}
+	}
+	if level == 2 {
+		// which quotas are named by a user flow: all of them / only the targets (their ancestors get their
+		// system flow switched off by the engine, other quotas keep a live QuotaProcessorInc) / a random subset
+		lim := ""
+		switch c := r.Intn(10); {
+		case deep || c < 4:
+			seen := map[int]bool{}
+			var ids []string
+			for _, t := range targets {
+				if !seen[t] {
+					seen[t] = true
+					ids = append(ids, fmt.Sprint(t))
+				}
+			}
+			sort.Strings(ids)
+			lim = " lim=" + strings.Join(ids, ",")
+		case c < 6:
+			var ids []string
+			for i := 0; i < nq; i++ {
+				if r.Chance(50) || i == targets[0] {
+					ids = append(ids, fmt.Sprint(i))
+				}
+			}
+			lim = " lim=" + strings.Join(ids, ",")
+		}
+		ops[startIdx] += lim
 	}
 	return proto.Case{ID: id, Ops: ops}
 }
@@ -284,6 +359,15 @@ func gen(r *prng.R, f proto.Flags, emit func(proto.Case)) {
 	for k := 0; k < nL2; k++ {
 		id++
 		emit(genCase(r.Fork(), fmt.Sprintf("e%d", id), 2, k%5 == 0))
+	}
+	// deep hierarchies (3-4 levels) named at the deepest level: through the engine and at the API
+	for k := 0; k < nL2/2; k++ {
+		id++
+		emit(genCaseX(r.Fork(), fmt.Sprintf("d%d", id), 2, true, true))
+		if k%4 == 0 {
+			id++
+			emit(genCaseX(r.Fork(), fmt.Sprintf("d%d", id), 1, true, true))
+		}
 	}
 	if f.Tier == "thorough" {
 		enumerate(emit)
